@@ -424,6 +424,31 @@ func isRequired(L *Layout, p string) bool {
 var hardFault = map[string]bool{"enoent": true, "eacces": true, "eio": true, "eisdir": true, "eio-read": true}
 
 // judge applies T1..T5 and E1 to one outcome. baseOK: the fault-free load of the same layout succeeded.
+// requiredByEnabled is set by the engines before judging a faulted load: the env files that services enabled in
+// the fault-free load of the same layout require (nil when that is not known: load failed, env files discarded,
+// model entry point).
+var requiredByEnabled map[string]bool
+
+func setRequiredByEnabled(L *Layout, base *Outcome) {
+	requiredByEnabled = nil
+	if base == nil || !base.OK || base.Project == nil || L.Opts.DiscardEnvFiles || L.Opts.SkipResolveEnvironment {
+		return
+	}
+	m := map[string]bool{}
+	for _, s := range base.Project.Services {
+		for _, ef := range s.EnvFiles {
+			if ef.Required {
+				p := ef.Path
+				if !strings.HasPrefix(p, "/") {
+					p = path.Join(L.Cwd, p)
+				}
+				m[path.Clean(p)] = true
+			}
+		}
+	}
+	requiredByEnabled = m
+}
+
 func c01Judge(L *Layout, out *Outcome, faults []*zsimrt.Fault, events []zsimrt.IOEvent, baseOK bool) (clause, key, detail string) {
 	switch {
 	case out.Panic != "":
@@ -471,8 +496,15 @@ func c01Judge(L *Layout, out *Outcome, faults []*zsimrt.Fault, events []zsimrt.I
 				}
 				// a file that some service marks optional and another requires: the probe may stem from the
 				// optional reference while the requiring service is disabled by profiles and never resolved
-				if isOptional(L, e.Path) && layoutHasProfiles(L) {
-					continue
+				if isOptional(L, e.Path) {
+					if req := requiredByEnabled; req != nil {
+						// the fault-free load tells which env files an ENABLED service requires
+						if !req[e.Path] {
+							continue
+						}
+					} else if layoutHasProfiles(L) {
+						continue
+					}
 				}
 			default:
 				continue
@@ -840,6 +872,7 @@ func c01Exec(c *Ctx, r *zsimrt.Run, sc *c01Scenario, class string, plan bool) {
 		c.Nontrivial("B/" + layoutDigest(L) + fmt.Sprintf("/%016x", er.Digest()))
 		c.Sample(map[string]any{"main": L.Main, "entry": L.Entry, "features": L.Features, "faults": sc.Faults, "stub": sc.Stub, "base_outcome": base.Kind(), "faulted_outcome": out.Kind(), "faulted_err": truncate(out.Err, 200)})
 	}
+	setRequiredByEnabled(L, base)
 	if clause, key, detail := c01Judge(L, out, faults, fs2.Events, base.OK); clause != "" {
 		report(out, clause, key, detail, fs2.Events)
 	}
